@@ -248,8 +248,12 @@ let handle (x : sexp) : (string * string) list =
          (match steps_of_path p with
           | None -> add "specfail" ("error_names_offender cause=unexplained unreadable path " ^ quote_string p)
           | Some steps ->
-            if not (offending std sch vds' nj (b v) steps) then
-              add "specfail" (Printf.sprintf "error_names_offender cause=unexplained %s at %s is not an offending position" v (quote_string p)));
+            if not (offending std sch vds' nj (b v) steps) then begin
+              (* the one known way to get a mis-named position: the lookup under a colliding mapper name *)
+              let alt = pipeline { go_quirks with q_remap_collision = false } sch reparse vds j in
+              let cause = if alt <> m_pipe then "remap-name-collision-upload" else "unexplained" in
+              add "specfail" (Printf.sprintf "error_names_offender cause=%s %s at %s is not an offending position" cause v (quote_string p))
+            end);
          let known n = known_name sch vds (b n) in
          let bad = ref [] in
          let chk what n = if not (known n) then bad := (what ^ "=" ^ n) :: !bad in
